@@ -97,7 +97,9 @@ def check_program(chk, scratch, prog, tier, budget, san=False):
     if lines is None:
         if not prog.name.startswith("G"):
             # a hand-written catalogue program the compiler rejects is a slip in the catalogue, not an observation
-            raise MachineryError("catalogue program %s is rejected by the compiler: %s\n%s" % (prog.name, err[:2], text))
+            # (every catalogue program is legal by the language reference and accepted by the unchanged tree)
+            chk.violation("catalogue-program-rejected:" + prog.name, "the compiler rejects the legal catalogue program %s: %s\n%s" % (prog.name, err[:2], text), {"emb": text})
+            return 0
         chk.extra.setdefault("rejected_programs", []).append({"prog": prog.name, "errors": err[:2]})
         return 0
     if lines == "BUILD_FAILED":
